@@ -34,11 +34,17 @@ def roundtrip_records(us_values, secs_1904):
             f, s = struct.unpack("<Qq", b)
             pairs.append((s, f))
             raw += b
-        arr = types.TimeStamp.from_bytes(np.frombuffer(bytes(raw), dtype=np.uint8), "<")
-        back_arr = arr.as_datetime64("us").astype("int64") + EPOCH_DIFF * 10 ** 6
+        try:
+            arr = types.TimeStamp.from_bytes(np.frombuffer(bytearray(raw), dtype=np.uint8), "<")
+            back_arr = arr.as_datetime64("us").astype("int64") + EPOCH_DIFF * 10 ** 6
+        except Exception:  # noqa  (logged: every record of this block then fails validation)
+            back_arr = np.full(len(pairs), -(10 ** 15), dtype="int64")
         for i, (s, f) in enumerate(pairs):
-            scalar_back = types.TimeStamp.read(io.BytesIO(bytes(raw[16 * i:16 * i + 16]))).as_datetime64("us")
-            sb = int(scalar_back.astype("int64")) + EPOCH_DIFF * 10 ** 6
+            try:
+                scalar_back = types.TimeStamp.read(io.BytesIO(bytes(raw[16 * i:16 * i + 16]))).as_datetime64("us")
+                sb = int(scalar_back.astype("int64")) + EPOCH_DIFF * 10 ** 6
+            except Exception:  # noqa
+                sb = -(10 ** 15)
             ab = int(back_arr[i])
             usb = total[i] + BIAS_S * 10 ** 6
             secb = s + BIAS_S
@@ -46,6 +52,34 @@ def roundtrip_records(us_values, secs_1904):
                          "sub": limbs(usb - secb * 10 ** 6),
                          "back": limbs((sb if sb == ab else -1) + BIAS_S * 10 ** 6) if sb == ab else limbs(-1),
                          "dbg": [sec, us_values[i]]})
+    return recs
+
+
+def writer_channel_records(us_values, secs_1904):
+    """datetime64[us] channel data through TdmsWriter -> bytes in the file -> TdmsFile.read (end to end)"""
+    from nptdms import TdmsWriter, TdmsFile, ChannelObject
+    from . import parser as _p
+    recs = []
+    total = [sec * 10 ** 6 + u for sec in secs_1904 for u in us_values]
+    dts = (np.array(total, dtype="int64") - EPOCH_DIFF * 10 ** 6).astype("datetime64[us]")
+    buf = io.BytesIO()
+    try:
+        with TdmsWriter(buf) as w:
+            w.write_segment([ChannelObject("g", "t", dts)])
+        data = buf.getvalue()
+        ev = _p.parse(data)[0]
+        raw = data[ev["raw_start"]:ev["raw_start"] + 16 * len(total)]
+        back = TdmsFile.read(io.BytesIO(data))["g"]["t"][:].astype("int64") + EPOCH_DIFF * 10 ** 6
+    except Exception:  # noqa
+        raw = b"\0" * (16 * len(total))
+        back = np.full(len(total), -(10 ** 15), dtype="int64")
+    for i, t in enumerate(total):
+        f, s = struct.unpack("<Qq", raw[16 * i:16 * i + 16])
+        usb = t + BIAS_S * 10 ** 6
+        secb = s + BIAS_S
+        recs.append({"kind": "roundtrip", "us": limbs(usb), "sec": limbs(secb), "frac": limbs(f),
+                     "sub": limbs(usb - secb * 10 ** 6), "back": limbs(int(back[i]) + BIAS_S * 10 ** 6),
+                     "dbg": ["writer-channel", t]})
     return recs
 
 
@@ -64,11 +98,22 @@ def convert_records(res, secs_1904, fracs):
     S = UNITS[res]
     pairs = sorted((s, f) for s in secs_1904 for f in fracs)
     a = np.array([(f, s) for (s, f) in pairs], dtype=[("second_fractions", "<u8"), ("seconds", "<i8")])
-    arr = TimestampArray(a).as_datetime64(res).astype("int64")
+    ta = TimestampArray(a)
+    try:
+        arr = ta.as_datetime64(res).astype("int64")
+        arr2 = ta.as_datetime64(res).astype("int64")          # converting must not change the raw array
+        if not (arr == arr2).all() or not (np.asarray(ta["seconds"]) == np.array([s for s, _ in pairs])).all() \
+                or not (np.asarray(ta["second_fractions"]) == np.array([f for _, f in pairs], dtype="u8")).all():
+            arr = np.full(len(pairs), -(10 ** 17), dtype="int64")
+    except Exception:  # noqa
+        arr = np.full(len(pairs), -(10 ** 17), dtype="int64")
     recs = []
     for i, (s, f) in enumerate(pairs):
-        sc = TdmsTimestamp(s, f).as_datetime64(res)
-        scalar = int(sc.astype("int64")) + EPOCH_DIFF * S
+        try:
+            sc = TdmsTimestamp(s, f).as_datetime64(res)
+            scalar = int(sc.astype("int64")) + EPOCH_DIFF * S
+        except Exception:  # noqa
+            scalar = -(10 ** 17)
         array = int(arr[i]) + EPOCH_DIFF * S
         secb = s + BIAS_S
         floor_b = secb * S + ((f * S) >> 64)
